@@ -97,6 +97,23 @@ impl ser::Serializer for Serializer {
         Ok(ConstValue::Number(v.into()))
     }
 
+    fn serialize_i128(self, v: i128) -> Result<Self::Ok, Self::Error> {
+        if let Ok(v) = u64::try_from(v) {
+            Ok(ConstValue::Number(v.into()))
+        } else if let Ok(v) = i64::try_from(v) {
+            Ok(ConstValue::Number(v.into()))
+        } else {
+            Err(SerializerError("number out of range".to_string()))
+        }
+    }
+
+    fn serialize_u128(self, v: u128) -> Result<Self::Ok, Self::Error> {
+        match u64::try_from(v) {
+            Ok(v) => Ok(ConstValue::Number(v.into())),
+            Err(_) => Err(SerializerError("number out of range".to_string())),
+        }
+    }
+
     #[inline]
     fn serialize_f32(self, v: f32) -> Result<Self::Ok, Self::Error> {
         self.serialize_f64(v as f64)
